@@ -5,6 +5,7 @@ import Sonic.Spec.Shortest
 import Sonic.Spec.Json
 import Sonic.Model.Quote
 import Sonic.Model.Memcmp
+import Sonic.Model.Xmemcpy
 import Sonic.Model.StringDec
 import Sonic.Model.Ftoa
 import Sonic.Model.Number
@@ -144,6 +145,7 @@ def step (st : DState) (line : String) : DState × String :=
     | _, _, _ => (st, "bad-op")
   | "f64toa" :: _ => (st, Sonic.Model.Ftoa.runLine toks)
   | "memcmp" :: _ => (st, Sonic.Model.Memcmp.runLine toks)
+  | "xmemcpy" :: _ => (st, Sonic.Model.Xmemcpy.runLine st.W toks)
   | "parsestr" :: _ => (st, Sonic.Model.StringDec.runLine st.W toks)
   | c :: _ =>
     if c.startsWith "pool-" then
